@@ -66,6 +66,10 @@ def run(tier, seed):
         nested.append(T.ArrayType(T.ArrayType(T.LongType())))
         nested.append(T.MapType(T.StringType(), T.StructType([T.StructField("g", T.ArrayType(T.DoubleType()))])))
         nested.append(T.StructType([]))
+        # nested field names that are not plain identifiers (the column's declared type must never be re-parsed from text)
+        odd = T.StructType([T.StructField("first name", T.StringType()), T.StructField("e-mail", T.StringType()),
+                            T.StructField("temp.max", T.DoubleType()), T.StructField("na\u00efve", T.IntegerType()), T.StructField("a`b", T.LongType())])
+        nested += [odd, T.ArrayType(odd), T.MapType(T.StringType(), odd)]
         dtypes = atoms + nested
         with warnings.catch_warnings():
             warnings.simplefilter("ignore")
